@@ -29,7 +29,7 @@ import (
 	"verif/vk"
 )
 
-const c09Rule = "valid messages / streams / settings / dictionary XML mutated structure-aware (truncate at any byte, drop the CheckSum, empty a value, duplicate or swap fields, huge / negative / non-numeric / boundary-adjacent BodyLength and XMLDataLen, timestamps of every precision lengthened, shortened or with a character replaced, group counts that lie, settings lines before any section, dangling and cyclic component references), plus arbitrary fragment soups; each target is run under recover with a read bound; non-trivial = input that gets past the first check of its target (parses / frames / reaches a section or element handler); distinct = distinct input bytes per target"
+const c09Rule = "valid messages / streams / settings / dictionary XML mutated structure-aware (truncate at any byte, drop the CheckSum, empty a value, duplicate or swap fields, huge / negative / non-numeric / boundary-adjacent BodyLength and XMLDataLen, timestamps of every precision lengthened, shortened or with a character replaced, group counts that lie, settings lines before any section, dangling and cyclic component references), plus arbitrary fragment soups; each target is run under recover with a read bound, validation with the five switches all on, all off and in a combination picked by the input, the session stage with drawn validation switches; non-trivial = input that gets past the first check of its target (parses / frames / reaches a section or element handler); distinct = distinct input bytes per target"
 
 func c09() *stats.Collector {
 	c := stats.Get("C09")
@@ -264,14 +264,22 @@ func exerciseMessage(t vk.TB, d map[string]*dictPair, raw []byte, dictName strin
 		// T3: validation against every shipped dictionary
 		for _, vn := range dictNames {
 			vd := d[vn]
-			var v quickfix.Validator
-			if strings.HasPrefix(vn, "FIX50") {
-				v = quickfix.NewValidator(quickfix.ValidatorSettings{CheckFieldsOutOfOrder: true, RejectInvalidMessage: true, CheckUserDefinedFields: true, CheckFieldsHaveValues: true}, vd.dd, d["FIXT11"].dd)
-			} else {
-				v = quickfix.NewValidator(quickfix.ValidatorSettings{CheckFieldsOutOfOrder: true, RejectInvalidMessage: true, CheckUserDefinedFields: true, CheckFieldsHaveValues: true}, vd.dd, nil)
+			// the validation switches are a user's to set: all on, all off, and a combination picked by the input
+			h := 0
+			for _, b := range raw {
+				h = h*31 + int(b)
 			}
-			if p := catch(func() { _ = v.Validate(m) }); p != nil {
-				c09fail(t, "validate", vn+"/"+panicClass(p), raw, fmt.Sprintf("Validate(%s) panicked: %v (parsed in mode %s)", vn, p, md.name))
+			for _, mask := range []int{31, 0, (h & 0x7fffffff) % 32} {
+				vs := quickfix.ValidatorSettings{CheckFieldsOutOfOrder: mask&1 != 0, RejectInvalidMessage: mask&2 != 0, CheckUserDefinedFields: mask&4 != 0, CheckFieldsHaveValues: mask&8 != 0, AllowUnknownMessageFields: mask&16 == 0}
+				var v quickfix.Validator
+				if strings.HasPrefix(vn, "FIX50") {
+					v = quickfix.NewValidator(vs, vd.dd, d["FIXT11"].dd)
+				} else {
+					v = quickfix.NewValidator(vs, vd.dd, nil)
+				}
+				if p := catch(func() { _ = v.Validate(m) }); p != nil {
+					c09fail(t, "validate", vn+"/"+panicClass(p), raw, fmt.Sprintf("Validate(%s) with %+v panicked: %v (parsed in mode %s)", vn, vs, p, md.name))
+				}
 			}
 		}
 	}
